@@ -46,8 +46,7 @@ def run(c, chk):
     for name, kind in (('strtol', 'integer'), ('strtod', 'floating point')):
         ps = sites[name]
         if not ps:
-            chk.fail('R4.5', 'no-site:%s' % name, c.where(fn), 'cfg_setopt() no longer converts %s values with %s()' % (kind, name))
-            continue
+            raise report.Broken('cfg_setopt() no longer converts %s values with %s(): the conversion site moved, the rule instances must be re-anchored' % (kind, name))
         r41 = r42 = r43 = r44 = r45 = True
         w = {}
         nacc = 0
